@@ -196,7 +196,7 @@ func (n *ScriptNet) GetBlock(h chainhash.Hash, _ ...neutrino.QueryOption) (*btcu
 	fail := n.BlockFail[h]
 	n.BlocksServed++
 	n.mu.Unlock()
-	nd := n.s.G.ByHash[h]
+	nd := n.s.G.Lookup(h)
 	if fail || nd == nil || nd.Block == nil {
 		return nil, errors.New("scripted network: block unavailable")
 	}
